@@ -12,7 +12,7 @@ THEOREMS = {"Artap.Props.C01": [
 from harness.core import FLOAT_AXIOMS, translated_specs
 AXIOMS_OK = FLOAT_AXIOMS
 # second tie to the code: the comparators' source is translated to Gallina on every run (tools/py2coq.py)
-# and the committed proofs GenProofs/DominanceEquiv.v show the result equal to Model/Dominance.v
+# and the committed proofs GenProofs/DominanceEquiv.v, GenProofs/EpsDominanceEquiv.v show the result equal to Model/Dominance.v
 TRANSLATED = translated_specs("DominanceGen", "EpsDominanceGen")
 TRUSTED = [
     "Coq 8.16.1 kernel, vm_compute for model evaluation (no native_compute)",
@@ -273,4 +273,7 @@ LEVEL_TEXT = ("Machine-checked Coq theorems over a model of both comparators, fo
               "The model is tied to operators.py on every run by evaluating it in Coq on thousands of generated pairs/triples and "
               "comparing verdicts exactly.")
 LEVEL_NOTE = ("Trusted: Coq kernel + vm_compute; FloatAxioms.ltb_spec/eqb_spec; the hand-written model and the Python harness; "
-              "math.pow results are an oracle tape. Correspondence is sampled (generated + corpus cases), the theorems are unbounded.")
+              "math.pow results are an oracle tape; the translator tools/py2coq.py (second tie: the source of both compare methods is "
+              "translated on every run and proved equal to the model for all inputs). Correspondence is sampled (generated + corpus cases, "
+              "each also run on a long-lived comparator with re-used list objects updated in place), the theorems are unbounded; the "
+              "epsilon/Pareto agreement theorem has the separation of the scaled coordinates as a hypothesis.")
